@@ -33,7 +33,7 @@ from dataclasses import dataclass
 from pathlib import Path
 
 from src.core.base import BaseLintContext, MultiLanguageLintRule
-from src.core.linter_utils import load_linter_config
+from src.core.linter_utils import get_metadata, load_linter_config, path_in_project
 from src.core.types import Violation
 
 from .config import StringlyTypedConfig
@@ -280,6 +280,8 @@ class StringlyTypedRule(MultiLanguageLintRule):  # thailint: ignore[srp]
         if not self._initialized:
             self._storage = self._helpers.storage_initializer.initialize(context, config)
             self._config = config
+            project_root = get_metadata(context).get("_project_root")
+            self._project_root = project_root if isinstance(project_root, (str, Path)) else None
             self._initialized = True
 
     def _analyze_python_file(self, context: BaseLintContext, config: StringlyTypedConfig) -> None:
@@ -317,7 +319,7 @@ class StringlyTypedRule(MultiLanguageLintRule):  # thailint: ignore[srp]
             return False
         # _is_ready_for_analysis ensures file_path is set
         assert context.file_path is not None  # nosec B101
-        return not is_ignored(context.file_path, config.ignore)
+        return not is_ignored(path_in_project(context) or context.file_path, config.ignore)
 
     def _store_validation_patterns(self, file_content: str, file_path: Path) -> None:
         """Analyze and store validation patterns.
@@ -364,7 +366,7 @@ class StringlyTypedRule(MultiLanguageLintRule):  # thailint: ignore[srp]
 
         # Generate violations from cross-file patterns
         violations = self._helpers.violation_generator.generate_violations(
-            self._storage, self.rule_id, self._config
+            self._storage, self.rule_id, self._config, getattr(self, "_project_root", None)
         )
 
         # Cleanup and reset state for next run
